@@ -1,5 +1,7 @@
 package main
 
+import "fmt"
+
 // Numeric test functions: structural equivalence with the reference formulations in ref/.
 
 type numSpec struct {
@@ -36,8 +38,12 @@ func runNumSpecs(c *Check, p *Prog, specs []numSpec) {
 }
 
 func ruleC01(c *Check, p *Prog) {
-	c.Explanation = "equivalence with reference formulations (work in progress)"
+	c.Explanation = "Decides for monobit (bit and byte form), block frequency, poker (bit and byte form), overlapping subsequence and approximate entropy: which input positions are read (all n bits; N=n/m full blocks and nothing beyond N*m; n cyclic windows through index mod n; MSB-first pattern value), what each contributes (accumulator transfer functions, histogram increments), and the closed-form map to P and Q (statistic, erfc pair or igamc with the standard's degrees of freedom); R-PART the automatic block length is 10/100/1000/10000/1000000 with regime borders 10^3/10^4/10^6/10^8; R-PRECOND no validation panic fires on admissible input." + numNote(c) + "; igamc itself is C06."
+	c.Floor("R-EQUIV", 7)
 	runNumSpecs(c, p, c01Specs)
+	checkDecisionTable(c, p, "R-PART", "selectM", pkgRoot, "selectM", refSelectM, decisionPts, "block length 10 / 100 / 1000 / 10000 / 1000000 below 10^3 / from 10^3 / 10^4 / 10^6 / 10^8 bits")
+	checkWrapper(c, p, "R-FORWARD", "FrequencyWithinBlockTest", wrapperSpec{"FrequencyWithinBlockTest", "FrequencyWithinBlockProto", []string{"P0", "selectM"}, 2})
+	checkPreconds(c, p, "C01")
 }
 
 var c02Specs = []numSpec{
@@ -47,8 +53,13 @@ var c02Specs = []numSpec{
 }
 
 func ruleC02(c *Check, p *Prog) {
-	c.Explanation = "equivalence with reference formulations (work in progress)"
+	c.Explanation = "Decides for runs, runs distribution and longest run in a block (ones and zeros variants): pairs (i,i+1) over i<n-1 with the last bit counted once; the cut-off loop k=max{i:(n-i+3)/2^(i+2)>=5}; the run-length state machine with pooling into class k and the explicit last-run flush; e_i, chi-square and igamc(k-1,V/2); regime selection at 6272 and 750000 with (m,K,lowest class); per-block longest run with reset per block and clamping into K+1 classes; igamc(K/2,V/2); R-TABLE the three class-probability vectors equal the exact longest-run distribution (recomputed by an exact integer recurrence for m=8, 128, 10000) to their printed precision." + numNote(c) + "."
+	c.Floor("R-EQUIV", 3)
+	c.Floor("R-TABLE", 3)
 	runNumSpecs(c, p, c02Specs)
+	checkDecisionTable(c, p, "R-PART", "selectParameters", pkgRoot, "selectParameters", refSelectParameters, decisionPts, "regime 0 / 1 / 2 (block length 8 / 128 / 10000) for n < 6272 / < 750000 / otherwise")
+	checkLongestRunTables(c, p)
+	checkPreconds(c, p, "C02")
 }
 
 var c03Specs = []numSpec{
@@ -58,8 +69,10 @@ var c03Specs = []numSpec{
 }
 
 func ruleC03(c *Check, p *Prog) {
-	c.Explanation = "equivalence with reference formulations (work in progress)"
+	c.Explanation = "Decides for binary derivative, autocorrelation and cumulative sums: k xor passes over a private copy with pass i covering j<n-i-1, the balance over the first n-k bits, V=S/sqrt(n-k); A(d) over i<n-d with offset d, V=2(A-(n-d)/2)/sqrt(n-d); forward (index i) and backward (index n-1-i) walks with Z=max|S|, and the two Phi-series with their integer (truncating) bounds derived from n/Z, Phi(x)=(1+erf(x/sqrt2))/2." + numNote(c) + "."
+	c.Floor("R-EQUIV", 3)
 	runNumSpecs(c, p, c03Specs)
+	checkPreconds(c, p, "C03")
 }
 
 var c04Specs = []numSpec{
@@ -72,8 +85,11 @@ var c04Specs = []numSpec{
 }
 
 func ruleC04(c *Check, p *Prog) {
-	c.Explanation = "equivalence with reference formulations (work in progress)"
+	c.Explanation = "Decides for matrix rank, linear complexity and Maurer: block geometry and full, unconditional overwrite of the reused scratch (matrix[j][k], arr[j]) per block, row-major fill order, class partitions, probability tables (R-TABLE: rank probabilities vs the exact GF(2) rank distribution, linear-complexity classes vs 1/96..1/48), mu/T/c(L,K) formulas, L=7/Q=1280/K, igamc degrees of freedom, tails; and ALGORITHM IDENTITY of the helpers with reference formulations of GF(2) forward elimination with xor-swap (rank, rowEchelon) and Berlekamp-Massey (linearComplexity) including the size M+1 of the shifted-polynomial scratch, whose shortfall was the out-of-range write on a block 0^(m-1)1 (fixed, see known_findings.json). NOT decided: crash freedom in general (index ranges in the elimination / Berlekamp-Massey loops need relational invariants; no analyser for that is available) and that the pinned algorithms compute the true rank / shortest LFSR (the reference linearComplexity was validated against brute-force LFSR synthesis for all blocks up to 11 bits at development time)." + numNote(c) + "."
+	c.Floor("R-EQUIV", 6)
 	runNumSpecs(c, p, c04Specs)
+	checkConstTables(c, p, "C04")
+	checkPreconds(c, p, "C04")
 }
 
 var c05Specs = []numSpec{
@@ -82,8 +98,10 @@ var c05Specs = []numSpec{
 }
 
 func ruleC05(c *Check, p *Prog) {
-	c.Explanation = "equivalence with reference formulations (work in progress)"
+	c.Explanation = "Decides for the spectral test: +-1 fill of a zero-initialised complex buffer of size ceilPow2(n) (least power of two >= max(n,2), R-EQUIV on ceilPow2), fft.New(N) with its error leading to panic and Transform applied to that fresh buffer, threshold sqrt(2.995732274 n), N0=0.95n/2, strict count over i<n/2-1 of |f_i|, divisor sqrt(0.95*0.05*n/3.8) with the sqrt2 folding, erfc pair. The transform itself is C19." + numNote(c) + "."
+	c.Floor("R-EQUIV", 2)
 	runNumSpecs(c, p, c05Specs)
+	checkPreconds(c, p, "C05")
 }
 
 var fdom = map[string]Domain{"param:0": {FLo: 0.5, FHi: 50}, "param:1": {FLo: 0.01, FHi: 80}}
@@ -95,8 +113,11 @@ var c06Specs = []numSpec{
 }
 
 func ruleC06(c *Check, p *Prog) {
-	c.Explanation = "equivalence with reference formulations (work in progress)"
+	c.Explanation = "Decides that igamc/igam ARE the Cephes algorithm: clamps (igamc returns 1 when x<=0 or a<=0 with these strictnesses; igam returns 0), series/continued-fraction switch (x<1 or x<a), prefactor exp(a ln x - x - lgamma a) with the -MAXLOG underflow cut, power-series recurrence (r+=1; c*=x/r; ans+=c; exit !(c/ans>MACHEP); ans*ax/a), continued-fraction initial values, the eight transfer expressions, rescaling by biginv when |pk|>big, exit !(t>MACHEP), result ans*ax; Igamc is igamc; R-TABLE MACHEP=2^-53, big=2^52, biginv=2^-52, MAXLOG=ln(DBL_MAX); R-PART the two mutual delegations are taken under mutually exclusive conditions. The accuracy bound 1e-12+1e-14a, the range [0,1] and monotonicity are INHERITED from the reference algorithm (Cephes igamc with these constants), not decided here." + numNote(c) + "."
+	c.Floor("R-EQUIV", 3)
 	runNumSpecs(c, p, c06Specs)
+	checkConstTables(c, p, "C06")
+	checkIgamExclusive(c, p)
 }
 
 var c19Specs = []numSpec{
@@ -110,6 +131,11 @@ var c19Specs = []numSpec{
 }
 
 func ruleC19(c *Check, p *Prog) {
-	c.Explanation = "equivalence with reference formulations (work in progress)"
+	c.Explanation = "Decides for package fft: lastPow2 refuses N<2 and N>2^27 and otherwise returns the largest power of two <= N with its exponent (loop summary); New propagates that error with the zero FFT and builds N, p, roots(N), permutationIndex(p); roots E[k]=cos(-2 pi k/N)+i sin(-2 pi k/N) for k in [0,N) (sign included); the doubling recurrence of the bit-reversal table; swap iff i<p[i]; Transform and Inverse refuse a wrong length before any write to x (the panic precedes every store in the summary), stage loop with stride halving, butterfly pair (i,i+n) with twiddles E[k s], E[s(k+n)] and simultaneous update, n doubling; Inverse = reversal of indices i<->N-i for 1<=i<N/2, forward transform, scale by 1/N. That this is the radix-2 decimation-in-time DFT is the stated paper lemma." + numNote(c) + "."
+	c.Floor("R-EQUIV", 7)
 	runNumSpecs(c, p, c19Specs)
+}
+
+func numNote(c *Check) string {
+	return fmt.Sprintf(" Method: each function's if-converted loop-nest summary (loops, induction variables in closed form, accumulator transfer functions, memory events, guards, results) is compared in lock-step with the summary of a reference formulation written from the standard (checker/ref); terms are compared by random interpretation at %d points per comparison with erfc/erf/exp/lgamma/igamc as injective surrogates, comparison atoms by boundary and strictness. NOT decided: floating-point accumulation error (the literal 'within 1e-8')", pointsFor(c))
 }
